@@ -334,3 +334,59 @@ pub fn su32(v: u32) -> ScVal {
 pub fn saddr(a: &soroban_sdk::Address) -> ScVal {
     ScVal::Address(a.try_into().unwrap())
 }
+
+/// Self-test of the independent recipes against the repository's golden files.
+pub fn selftest(repo: &str) -> Result<usize, String> {
+    let hx = |s: &str| -> [u8; 32] { hex::decode(s).unwrap().try_into().unwrap() };
+    let keys = [
+        ("0a245a2a2a5e8ec439d1377579a08fc78ea55647ba6fcb1f5d8a360218e8a985", 3u128),
+        ("0b422cf449d900f6f8eb97f62e35811c62eb75feb84dfccef44a5c1c3dbac2ad", 2),
+        ("18c34bf01a11b5ba21ea11b1678f3035ef753f0bdb1d5014ec21037e8f99e2a2", 4),
+        ("f683ca8a6d7fe55f25599bb64b01edcc5eeb85fe5b63d3a4f0b3c32405005518", 4),
+        ("fbb4b870e800038f1379697fae3058938c59b696f38dd0fdf2659c0cf3a5b663", 2),
+    ];
+    let set = MSet {
+        signers: keys.iter().map(|(k, w)| MSigner { key: hx(k), weight: *w, key_id: None }).collect(),
+        threshold: 8,
+        nonce: hx("8784bf7be5a9baaeea47e12d9e8ad0dec29afcbc3617d97f771e3c24fa945dce"),
+    };
+    let p = format!("{}/contracts/axelar-gateway/src/testdata/weighted_signers_hash.golden", repo);
+    let gold: Vec<String> = serde_json::from_str(&std::fs::read_to_string(&p).map_err(|e| format!("{}: {}", p, e))?).map_err(|e| e.to_string())?;
+    if gold.len() != 2 || gold[0] != hex::encode(set.hash()) || gold[1] != hex::encode(set.rotation_data_hash()) {
+        return Err("independent signer-set hash / rotation hash disagree with the golden file".into());
+    }
+    // messages approval hash
+    let env = soroban_sdk::Env::default();
+    let to_id = |s: &str| -> [u8; 32] {
+        let a = soroban_sdk::Address::from_string(&soroban_sdk::String::from_str(&env, s));
+        crate::host::addr_bytes(&a)
+    };
+    let phs = [
+        "cfa347779c9b646ddf628c4da721976ceb998f1ab2c097b52e66a575c3975a6c",
+        "fb5eb8245e3b8eb9d44f228ee142a3378f57d49fc95fa78d437ff8aa5dd564ba",
+        "90e3761c0794fbbd8b563a0d05d83395e7f88f64f30eebb7c5533329f6653e84",
+        "60e146cb9c548ba6e614a87910d8172c9d21279a3f8f4da256ff36e15b80ea30",
+    ];
+    let msgs: Vec<MMsg> = phs
+        .iter()
+        .enumerate()
+        .map(|(i, h)| MMsg {
+            source_chain: format!("source-{}", i + 1),
+            message_id: format!("test-{}", i + 1),
+            source_address: "CAAAAAAAAAAAAAAAAAAAAAAAAAAAAAAAAAAAAAAAAAAAAAAAAAAAHK3M".into(),
+            contract: to_id("CAAAAAAAAAAAAAAAAAAAAAAAAAAAAAAAAAAAAAAAAAAAAAAAAAAAMDR4"),
+            payload_hash: hx(h),
+        })
+        .collect();
+    let p = format!("{}/contracts/axelar-gateway/src/testdata/messages_approval_hash.golden", repo);
+    let gold = std::fs::read_to_string(&p).map_err(|e| format!("{}: {}", p, e))?;
+    if gold.trim() != hex::encode(approve_data_hash(&msgs)) {
+        return Err("independent approval data hash disagrees with the golden file".into());
+    }
+    let p = format!("{}/contracts/interchain-token-service/tests/testdata/canonical_token_id_derivation.golden", repo);
+    let gold: Vec<String> = serde_json::from_str(&std::fs::read_to_string(&p).map_err(|e| format!("{}: {}", p, e))?).map_err(|e| e.to_string())?;
+    if gold[0] != hex::encode(chain_name_hash("chain_name")) {
+        return Err("independent chain-name hash disagrees with the golden file".into());
+    }
+    Ok(4)
+}
